@@ -103,7 +103,7 @@ func reader_scan_triples_End(r *Decoder, ectx evaluationContext, r0 cursorio.Dec
 
 	r.buf.BacktrackRunes(r0)
 
-	return readerStack{}, grammar.R_triples.Err(r.newOffsetError(cursorioutil.UnexpectedRuneError{Rune: r0.Rune}, cursorio.DecodedRunes{}, r0.AsDecodedRunes()))
+	return readerStack{}, grammar.R_triples.Err(r.newOffsetError(cursorioutil.UnexpectedRuneError{Rune: r0.Rune}, cursorio.DecodedRunes{}, cursorio.DecodedRunes{}))
 }
 
 func reader_scan_triples_subject_IRIREF(r *Decoder, ectx evaluationContext, r0 cursorio.DecodedRune, err error) (readerStack, error) {
